@@ -10,7 +10,10 @@
     - [_abs_path] returns absolute paths unchanged and prefixes relative ones with the node path
       (the root contributing the empty prefix), the result being absolute;
     - [_rel_path] undoes [_abs_path] on relative paths (round trip);
-    - the root is its own parent, and the parent of the child [n] of [g] is [g].
+    - the root is its own parent, and the parent of the child [n] of [g] is [g];
+    - segment-list reading ([segs], the representation of [IH5/Overlay*.v]): on well-formed node
+      paths [_abs_path] appends the names of a relative path, [_parent_path] is [removelast],
+      [_rel_path] returns the segments below the node ([gen_ov_seg_*]).
 
     Shape of the proofs: unfold the generated definition, normalise the Python builtins
     ([ovnorm]: [s[0]], [find(..) = 0] tests, [s[n:]], [split]/[join] on "/") and decide the
@@ -307,3 +310,167 @@ Proof.
     + apply join_split.
 Qed.
 Print Assumptions gen_ov_parent_of_child.
+
+(** ** Segment-list reading of the three functions
+
+    The overlay model ([IH5/Overlay*.v]) addresses nodes by segment lists.  [segs] reads an
+    absolute path string as such a list (the root is [[]]); on well-formed node paths and names
+    the translated string functions are exactly "append a segment" and "drop the last segment". *)
+
+Definition segs (p : string) : list string :=
+  if String.eqb p "/" then [] else List.tl (segs_of p).
+
+(** Well-formed node path: the root, or absolute without empty segment (hence no trailing "/"). *)
+Definition wf_abs (g : string) : Prop :=
+  g = "/" \/ (String.prefix "/" g = true /\ ~ In "" (List.tl (segs_of g))).
+
+Definition wf_name (n : string) : Prop := n <> "" /\ no_char slash n = true.
+
+Lemma wf_name_relative n : wf_name n -> String.prefix "/" n = false.
+Proof.
+  intros [Nn NC]. destruct n as [|c n]; [reflexivity|]. rewrite prefix_slash_cons.
+  cbn [no_char] in NC. apply andb_prop in NC as [NC _]. apply negb_true_iff in NC.
+  destruct (ascii_dec "/"%char c) as [<-|]; [|reflexivity].
+  unfold slash in NC. rewrite Ascii.eqb_refl in NC. discriminate.
+Qed.
+
+Lemma split_slash_cons r : split slash (String "/"%char r) = "" :: split slash r.
+Proof. cbn [split]. unfold slash at 1. rewrite Ascii.eqb_refl. reflexivity. Qed.
+
+Lemma tl_app_nonempty {X} (l r : list X) : l <> [] -> List.tl (l ++ r) = (List.tl l ++ r)%list.
+Proof. destruct l; [congruence|reflexivity]. Qed.
+
+Lemma in_removelast {X} (x : X) l : In x (removelast l) -> In x l.
+Proof.
+  induction l as [|a l IH]; [auto|]. destruct l as [|b l]; [intros []|].
+  change (removelast (a :: b :: l)) with (a :: removelast (b :: l)).
+  intros [->|H]; [left; reflexivity|right; apply IH, H].
+Qed.
+
+Lemma forall_removelast {X} (P : X -> Prop) l : Forall P l -> Forall P (removelast l).
+Proof. intros H. apply Forall_forall. intros x I. eapply Forall_forall; [exact H|apply in_removelast, I]. Qed.
+
+Lemma wf_abs_nonempty g : wf_abs g -> g <> "".
+Proof. intros [->|[P _]]; [discriminate|]. destruct g; [discriminate|discriminate]. Qed.
+
+(** [_abs_path] of a name appends one segment. *)
+Theorem gen_ov_seg_abs_child : forall g n,
+  wf_abs g -> wf_name n ->
+  segs (Gen_ovpaths.IH5Node_u_abs_path g n) = (segs g ++ [n])%list.
+Proof.
+  intros g n G N. pose proof (wf_name_relative n N) as P. destruct N as [Nn NC].
+  destruct (gen_ov_abs_relative g n P) as [-> _].
+  change ("/" ++ n) with (String slash n). unfold segs, ov_pref.
+  destruct (String.eqb_spec g "/") as [->|Ng].
+  - cbn [append]. destruct (String.eqb_spec (String slash n) "/") as [E|_].
+    + injection E as E. congruence.
+    + unfold segs_of. rewrite split_slash_cons, (split_one _ _ NC). reflexivity.
+  - destruct (String.eqb_spec (g ++ String slash n) "/") as [E|_].
+    + exfalso. destruct g as [|c g]; [now apply wf_abs_nonempty in G|].
+      injection E as _ E. destruct g; discriminate.
+    + unfold segs_of. rewrite (split_app_last _ _ _ NC). apply tl_app_nonempty, split_nonempty.
+Qed.
+Print Assumptions gen_ov_seg_abs_child.
+
+(** [_parent_path] drops the last segment (the root is its own parent: [removelast [] = []]). *)
+Theorem gen_ov_seg_parent : forall g,
+  wf_abs g ->
+  segs (Gen_ovpaths.IH5Node_u_parent_path g) = removelast (segs g).
+Proof.
+  intros g G. unfold Gen_ovpaths.IH5Node_u_parent_path. ov_norm.
+  destruct (String.eqb_spec g "/") as [->|Ng]; [reflexivity|].
+  destruct G as [->|[P NE]]; [congruence|].
+  destruct (prefix_slash_inv _ P) as [r ->].
+  unfold segs at 2. destruct (String.eqb_spec (String "/"%char r) "/") as [E|_]; [congruence|].
+  unfold segs_of in *. rewrite split_slash_cons in *. cbn [List.tl] in *.
+  pose proof (split_no_char slash r) as NC.
+  destruct (split slash r) as [|h t] eqn:S; [now apply split_nonempty in S|].
+  change (removelast ("" :: h :: t)) with ("" :: removelast (h :: t)).
+  destruct (removelast (h :: t)) as [|h' t'] eqn:R.
+  - reflexivity.
+  - destruct (str_list_eqb_spec ("" :: h' :: t') [""]) as [E|_]; [discriminate|].
+    assert (NC' : Forall (fun x => no_char slash x = true) ("" :: h' :: t')).
+    { constructor; [reflexivity|]. rewrite <- R. apply forall_removelast, NC. }
+    unfold segs, path_of, segs_of.
+    destruct (String.eqb_spec (join slash ("" :: h' :: t')) "/") as [E|_].
+    + exfalso. apply (f_equal (split slash)) in E. rewrite split_join in E by (auto; discriminate).
+      cbv in E. injection E as -> ->. apply NE, in_removelast. rewrite R. left. reflexivity.
+    + rewrite split_join by (auto; discriminate). reflexivity.
+Qed.
+Print Assumptions gen_ov_seg_parent.
+
+(** Relative paths of several names: [n1/../nk] with well-formed names. *)
+Lemma split_app_join c a ns :
+  ns <> [] -> Forall (fun x => no_char c x = true) ns ->
+  split c (a ++ String c (join c ns)) = (split c a ++ ns)%list.
+Proof.
+  intros NE H. induction a as [|d a IH]; simpl.
+  - rewrite Ascii.eqb_refl, split_join by assumption. reflexivity.
+  - rewrite IH. destruct (Ascii.eqb d c); [reflexivity|].
+    destruct (split c a) as [|h t] eqn:S; [now apply split_nonempty in S|]. reflexivity.
+Qed.
+
+Lemma wf_names_no_char ns : Forall wf_name ns -> Forall (fun x => no_char slash x = true) ns.
+Proof. intros H. eapply Forall_impl; [|exact H]. intros x [_ N]. exact N. Qed.
+
+Lemma wf_name_app_relative n x : wf_name n -> String.prefix "/" (n ++ x) = false.
+Proof.
+  intros N. pose proof (wf_name_relative n N) as P. destruct N as [Nn _].
+  destruct n as [|c n]; [congruence|]. cbn [append]. rewrite prefix_slash_cons in *. exact P.
+Qed.
+
+Lemma join_names_shape ns : ns <> [] -> Forall wf_name ns ->
+  exists n x, wf_name n /\ join slash ns = n ++ x.
+Proof.
+  intros NE H. destruct ns as [|n r]; [congruence|]. inversion H; subst. exists n.
+  destruct r as [|m r].
+  - exists "". split; [assumption|]. simpl. symmetry. apply app_nil_r_str.
+  - exists (String slash (join slash (m :: r))). split; [assumption|]. apply join_cons2.
+Qed.
+
+Lemma segs_slash_join ns : ns <> [] -> Forall wf_name ns -> segs ("/" ++ join slash ns) = ns.
+Proof.
+  intros NE H. destruct (join_names_shape ns NE H) as (n & x & [Nn _] & E).
+  change ("/" ++ join slash ns) with (String "/"%char (join slash ns)). unfold segs, segs_of.
+  destruct (String.eqb_spec (String "/"%char (join slash ns)) "/") as [E'|_].
+  - injection E' as E'. rewrite E in E'. destruct n; [congruence|discriminate].
+  - rewrite split_slash_cons, split_join by auto using wf_names_no_char. reflexivity.
+Qed.
+
+Theorem gen_ov_seg_abs_rel : forall g ns,
+  wf_abs g -> ns <> [] -> Forall wf_name ns ->
+  segs (Gen_ovpaths.IH5Node_u_abs_path g (join slash ns)) = (segs g ++ ns)%list.
+Proof.
+  intros g ns G NE H. destruct (join_names_shape ns NE H) as (n & x & N & E).
+  assert (P : String.prefix "/" (join slash ns) = false) by (rewrite E; apply wf_name_app_relative, N).
+  destruct (gen_ov_abs_relative g _ P) as [-> _].
+  change ("/" ++ join slash ns) with (String slash (join slash ns)). unfold ov_pref.
+  destruct (String.eqb_spec g "/") as [->|Ng].
+  - exact (segs_slash_join ns NE H).
+  - unfold segs. destruct (String.eqb_spec g "/"); [congruence|].
+    destruct (String.eqb_spec (g ++ String slash (join slash ns)) "/") as [E'|_].
+    + exfalso. destruct g as [|c g]; [now apply wf_abs_nonempty in G|].
+      injection E' as _ E'. destruct g; discriminate.
+    + unfold segs_of. rewrite split_app_join by auto using wf_names_no_char.
+      apply tl_app_nonempty, split_nonempty.
+Qed.
+Print Assumptions gen_ov_seg_abs_rel.
+
+Lemma wf_abs_absolute g : wf_abs g -> String.prefix "/" g = true.
+Proof. intros [->|[P _]]; [reflexivity|exact P]. Qed.
+
+(** [_rel_path] gives back the relative part: the segments below the node. *)
+Theorem gen_ov_seg_rel : forall g ns,
+  wf_abs g -> ns <> [] -> Forall wf_name ns ->
+  exists p, Gen_ovpaths.IH5Node_u_rel_path g (Gen_ovpaths.IH5Node_u_abs_path g (join slash ns)) = inr p /\
+            segs ("/" ++ p) = ns /\
+            segs (Gen_ovpaths.IH5Node_u_abs_path g (join slash ns)) = (segs g ++ segs ("/" ++ p))%list.
+Proof.
+  intros g ns G NE H. destruct (join_names_shape ns NE H) as (n & x & N & E).
+  assert (P : String.prefix "/" (join slash ns) = false) by (rewrite E; apply wf_name_app_relative, N).
+  exists (join slash ns). split; [|split].
+  - apply gen_ov_rel_of_abs; [apply wf_abs_absolute, G|exact P].
+  - apply segs_slash_join; assumption.
+  - rewrite (segs_slash_join ns NE H). apply gen_ov_seg_abs_rel; assumption.
+Qed.
+Print Assumptions gen_ov_seg_rel.
